@@ -14,123 +14,26 @@
     markup_parse_off_error_kind text_parse_flag_only_at_code text_parse_off_no_exec
     text_parse_off_rejects
 -/
-import Genshi.Model.Exec
-import Genshi.Lemmas.ExecGraph
+import Genshi.Lemmas.ExecRoot
 import Genshi.Lemmas.ExecParse
 namespace Genshi.Props.C14
 open Genshi.Exec Genshi.Gen.Exec
 
-/-! ### the invariant carried along include chains -/
-
-/-- a reached template is *safe*: a code block in it is rejected with a syntax error, and the
-    loader it holds (which instantiates whatever it includes) has execution switched off -/
-def Safe (n : Node) : Prop := n.verdict = .reject ∧ n.loaderFlag = false
-
-/-- table fact: a loader whose flag is off rejects code blocks of whatever it instantiates for
-    an include, and hands on a loader whose flag is off — for every including class, parse mode
-    and reload mode.  (Breaks at the named case when a forwarding entry flips.) -/
-theorem inclStep_off (c : Cls) (p : Parse) (ar : Bool) (c' : Cls) (v : Verdict) (lf : Bool)
-    (h : inclStep c p false ar = some (c', v, lf)) : v = .reject ∧ lf = false := by
-  cases c <;> cases p <;> cases ar <;> simp [inclStep] at h <;>
-    (obtain ⟨_, rfl, rfl⟩ := h; exact ⟨rfl, rfl⟩)
-
-theorem step_safe (n m : Node) (p : Parse) (hn : Safe n) (hs : step n p = some m) : Safe m := by
-  obtain ⟨_, hlf⟩ := hn
-  unfold step at hs
-  rw [hlf] at hs
-  cases hi : inclStep n.cls p false n.autoReload with
-  | none => rw [hi] at hs; cases hs
-  | some t =>
-      obtain ⟨c', v, lf⟩ := t
-      rw [hi] at hs
-      cases hs
-      exact inclStep_off _ _ _ _ _ _ hi
 
 /-! ### plugin option spellings -/
-
-theorem toNat_ofNat_small (n : Nat) (h : n < 55296) : (Char.ofNat n).toNat = n := by
-  have hv : n.isValidChar := Or.inl h
-  unfold Char.ofNat
-  rw [dif_pos hv]
-  simp [Char.ofNatAux, Char.toNat]
-
-/-- every string is one of the letter-case variants of its own lower-casing -/
-theorem mem_variants_lower (s : List Char) : s ∈ variants (lower s) := by
-  induction s with
-  | nil => simp [lower, variants]
-  | cons c cs ih =>
-      have ih' : cs ∈ variants (List.map lowerC cs) := ih
-      simp only [lower, List.map_cons, variants]
-      by_cases hup : 65 ≤ c.toNat ∧ c.toNat ≤ 90
-      · have hl : lowerC c = Char.ofNat (c.toNat + 32) := by simp [lowerC, hup]
-        have hn : (Char.ofNat (c.toNat + 32)).toNat = c.toNat + 32 :=
-          toNat_ofNat_small _ (by omega)
-        rw [hl, hn]
-        have hr : 97 ≤ c.toNat + 32 ∧ c.toNat + 32 ≤ 122 := by omega
-        rw [if_pos hr]
-        have hb : Char.ofNat (c.toNat + 32 - 32) = c := by
-          rw [Nat.add_sub_cancel]; exact Char.ofNat_toNat c
-        rw [hb]
-        exact List.mem_append_right _ (List.mem_map.mpr ⟨cs, ih', rfl⟩)
-      · have hl : lowerC c = c := by simp [lowerC, hup]
-        rw [hl]
-        by_cases hlo : 97 ≤ c.toNat ∧ c.toNat ≤ 122
-        · rw [if_pos hlo]
-          exact List.mem_append_left _ (List.mem_map.mpr ⟨cs, ih', rfl⟩)
-        · rw [if_neg hlo]
-          exact List.mem_map.mpr ⟨cs, ih', rfl⟩
-
-/-- the probed spellings: every documented off-spelling is read as "deny", every documented
-    on-spelling as "allow" (finite check over all letter-case variants) -/
-theorem spellings_parse :
-    (∀ s ∈ offSpellings, parseOpt (.str s) = .deny) ∧ (∀ s ∈ onSpellings, parseOpt (.str s) = .allow) := by
-  decide
 
 /-- **for every string**: the option parser says "deny" exactly for the documented
     off-spellings — `no`, `false`, `off`, `0` in any letter case, and nothing else -/
 theorem parse_deny_iff_documented (s : List Char) :
-    parseOpt (.str s) = .deny ↔ s ∈ offSpellings := by
-  constructor
-  · intro h
-    simp only [parseOpt] at h
-    by_cases h1 : lower s ∈ wordsOn
-    · rw [if_pos h1] at h; cases h
-    · rw [if_neg h1] at h
-      by_cases h2 : lower s ∈ wordsOff
-      · simp only [offSpellings, List.mem_flatMap]
-        exact ⟨lower s, h2, mem_variants_lower s⟩
-      · rw [if_neg h2] at h; cases h
-  · exact spellings_parse.1 s
+    parseOpt (.str s) = .deny ↔ s ∈ offSpellings := parse_deny_iff_documented_lem s
 
 /-- any letter-casing of a false-word switches execution off -/
 theorem off_spelling_any_case (s : List Char) (h : lower s ∈ wordsOff) : parseOpt (.str s) = .deny :=
-  (parse_deny_iff_documented s).mpr
-    (by simp only [offSpellings, List.mem_flatMap]; exact ⟨lower s, h, mem_variants_lower s⟩)
+  off_spelling_any_case_lem s h
 
 /-- whatever the documentation calls "off" is read as "deny" -/
-theorem documented_off_denied (o : Opt) (h : documented o = some false) : parseOpt o = .deny := by
-  cases o with
-  | absent => simp [documented] at h
-  | bool b => cases b <;> simp_all [documented, parseOpt]
-  | int n => simp [documented] at h
-  | none => simp [documented] at h
-  | str s =>
-      simp only [documented] at h
-      by_cases h1 : s ∈ offSpellings
-      · exact spellings_parse.1 s h1
-      · rw [if_neg h1] at h
-        by_cases h2 : s ∈ onSpellings
-        · rw [if_pos h2] at h; cases h
-        · rw [if_neg h2] at h; cases h
-
-/-- what the model says the plugin does for an option value: the parse result, and — through the
-    rows probed with the Python booleans — what happens to file and string templates -/
-def modelRow (p : Plugin) (o : Opt) : Option PluginRow :=
-  match parseOpt o with
-  | .allow => pluginByFlag p true
-  | .deny => pluginByFlag p false
-  | .confError => some ⟨.confError, .failed, none, none, .failed, none, none⟩
-  | .failed => none
+theorem documented_off_denied (o : Opt) (h : documented o = some false) : parseOpt o = .deny :=
+  documented_off_denied_lem o h
 
 /-- tie to the code: on **every probed option value** (all letter cases of the eight words, the
     booleans, absent, integers, None, junk strings) and for each plugin class the real plugin
@@ -156,84 +59,7 @@ theorem lower_model_exact :
       (wordsOn ++ wordsOff).all fun w => !(w.contains ch)) = true := by
   constructor <;> decide +kernel
 
-/-! ### roots -/
-
-theorem pluginByFlag_false_check (p : Plugin) :
-    (pluginByFlag p false).all (fun row => decide
-      ((row.fileV = .reject ∧ row.fileLF = some false) ∧ (row.strV = .reject ∧ row.strLF = some false)
-        ∧ row.fileF = some false ∧ row.strF = some false)) = true := by
-  cases p <;> decide +kernel
-
-theorem pluginByFlag_false_safe (p : Plugin) (row : PluginRow) (h : pluginByFlag p false = some row) :
-    (row.fileV = .reject ∧ row.fileLF = some false) ∧ (row.strV = .reject ∧ row.strLF = some false)
-      ∧ row.fileF = some false ∧ row.strF = some false := by
-  have hc := pluginByFlag_false_check p
-  rw [h] at hc
-  simpa using hc
-
-theorem rootNode_safe (cfg : Config) (r : Root) (n : Node) (hd : r.disabled cfg)
-    (hn : rootNode cfg r = some n) : Safe n := by
-  cases r with
-  | direct c s own =>
-      cases own with
-      | true =>
-          have ht : cfg.tmpl = .off := hd
-          simp only [rootNode, ht] at hn
-          cases c <;> cases s <;> simp [directLoaderFlag, directVerdict] at hn <;>
-            (subst hn; exact ⟨rfl, rfl⟩)
-      | false =>
-          obtain ⟨ht, hl⟩ : cfg.tmpl = .off ∧ cfg.loader = .off := hd
-          simp only [rootNode, ht, hl] at hn
-          cases c <;> cases s <;> simp [directLoaderFlag, directVerdict] at hn <;>
-            (subst hn; exact ⟨rfl, rfl⟩)
-  | load c d =>
-      have hl : cfg.loader = .off := hd
-      simp only [rootNode, hl] at hn
-      cases c <;> cases d <;> simp [loadLoaderFlag, loadVerdict] at hn <;>
-        (subst hn; exact ⟨rfl, rfl⟩)
-  | pluginFile p =>
-      have hp : parseOpt cfg.opt = .deny := documented_off_denied _ hd
-      simp only [rootNode, hp] at hn
-      cases hc : pluginCls p with
-      | none => simp [hc] at hn
-      | some c =>
-          simp only [hc] at hn
-          cases hr : pluginByFlag p false with
-          | none => simp [hr] at hn
-          | some row =>
-              have hs := pluginByFlag_false_safe p row hr
-              simp only [hr, Option.bind_some, hs.1.2, Option.map_some] at hn
-              cases hn
-              exact ⟨hs.1.1, rfl⟩
-  | pluginString p =>
-      have hp : parseOpt cfg.opt = .deny := documented_off_denied _ hd
-      simp only [rootNode, hp] at hn
-      cases hc : pluginCls p with
-      | none => simp [hc] at hn
-      | some c =>
-          simp only [hc] at hn
-          cases hr : pluginByFlag p false with
-          | none => simp [hr] at hn
-          | some row =>
-              have hs := pluginByFlag_false_safe p row hr
-              simp only [hr, Option.bind_some, hs.2.1.2, Option.map_some] at hn
-              cases hn
-              exact ⟨hs.2.1.1, rfl⟩
-
-/-! ### the property -/
-
-/-- every template reachable from a disabled root is safe — induction over include depth -/
-theorem node_safe (cfg : Config) (r : Reach) (n : Node) (hd : r.rootOf.disabled cfg)
-    (hn : node cfg r = some n) : Safe n := by
-  induction r generalizing n with
-  | root r0 => exact rootNode_safe cfg r0 n hd hn
-  | incl parent p ih =>
-      simp only [node] at hn
-      cases hp : node cfg parent with
-      | none => rw [hp] at hn; cases hn
-      | some m =>
-          rw [hp] at hn
-          exact step_safe m n p (ih m hd hp) hn
+/-! ### the property (reachability model over the generated tables) -/
 
 /-- **Disabling code execution disables it on every path**: when every flag given for the root
     is off (constructor flag; loader flag; plugin option in any documented spelling), no
@@ -315,117 +141,6 @@ theorem mixed_config_includes_run :
 
 /-! ### the include-graph model: arbitrary (cyclic) include graphs, caches, histories -/
 
-theorem st0_clean (ar : Bool) : StClean (st0 false ar) := ⟨rfl, by intro k t h; simp [st0] at h⟩
-
-theorem mkLoader_disabled (cfg : Config) (root : Root) (st : St) (hd : root.disabled cfg)
-    (h : mkLoader cfg root = .ok st) : StClean st ∧ st.sentinel = [] := by
-  cases root with
-  | direct c s own =>
-      cases own with
-      | true =>
-          have ht : cfg.tmpl = .off := hd
-          simp only [mkLoader, ht] at h
-          cases c <;> cases s <;> simp [directLoaderFlag] at h <;> (subst h; exact ⟨st0_clean _, rfl⟩)
-      | false =>
-          obtain ⟨ht, hl⟩ : cfg.tmpl = .off ∧ cfg.loader = .off := hd
-          simp only [mkLoader, ht, hl] at h
-          cases c <;> cases s <;> simp [directLoaderFlag] at h <;> (subst h; exact ⟨st0_clean _, rfl⟩)
-  | load c d =>
-      have hl : cfg.loader = .off := hd
-      simp only [mkLoader, hl] at h
-      cases c <;> cases d <;> simp [loaderFlag] at h <;> (subst h; exact ⟨st0_clean _, rfl⟩)
-  | pluginFile p =>
-      have hp : parseOpt cfg.opt = .deny := documented_off_denied _ hd
-      simp only [mkLoader, hp] at h
-      cases h; exact ⟨st0_clean _, rfl⟩
-  | pluginString p =>
-      have hp : parseOpt cfg.opt = .deny := documented_off_denied _ hd
-      simp only [mkLoader, hp] at h
-      cases h; exact ⟨st0_clean _, rfl⟩
-
-theorem directFlag_off (c : Cls) (s : Src) (tf : Bool) :
-    (directFlag c s .off none = some tf → tf = false) ∧
-    (directFlag c s .off (some .off) = some tf → tf = false) := by
-  cases c <;> cases s <;> simp [directFlag] <;> (intro h; exact h.symm)
-
-theorem mkRoot_disabled (cfg : Config) (fs : FS) (rn : Nat) (st st' : St) (root : Root) (t : Tmpl)
-    (stack : List Nat) (hd : root.disabled cfg) (hc : StClean st)
-    (h : mkRoot cfg fs rn st root = .ok (st', t, stack)) :
-    StClean st' ∧ noCode t.items = true ∧ st'.sentinel = st.sentinel := by
-  cases root with
-  | direct c s own =>
-      simp only [mkRoot] at h
-      cases hf : fs.lookup rn with
-      | none => simp [hf] at h
-      | some f =>
-          cases hdf : directFlag c s cfg.tmpl (if own = true then none else some cfg.loader) with
-          | none => simp [hdf] at h
-          | some tf =>
-              simp only [hdf, hf] at h
-              have htf : tf = false := by
-                cases own with
-                | true =>
-                    have ht : cfg.tmpl = .off := hd
-                    simp only [ht] at hdf
-                    exact (directFlag_off c s tf).1 hdf
-                | false =>
-                    obtain ⟨ht, hl⟩ : cfg.tmpl = .off ∧ cfg.loader = .off := hd
-                    simp [ht, hl] at hdf
-                    exact (directFlag_off c s tf).2 hdf
-              subst htf
-              cases hp : parseFile c false rn f with
-              | error e => simp [hp] at h
-              | ok t1 =>
-                  simp only [hp] at h
-                  cases h
-                  exact ⟨hc, parse_off_clean c rn f t hp, rfl⟩
-  | load c d =>
-      simp only [mkRoot] at h
-      cases hl : load fs st rn c with
-      | error e => simp [hl] at h
-      | ok pr =>
-          obtain ⟨s1, t1⟩ := pr
-          simp only [hl] at h
-          cases h
-          obtain ⟨h1, h2, h3, _, _⟩ := load_clean fs st st' rn c false t hc hl
-          exact ⟨h1, h2, h3⟩
-  | pluginFile p =>
-      simp only [mkRoot] at h
-      cases hpc : pluginCls p with
-      | none => simp [hpc] at h
-      | some c =>
-          simp only [hpc] at h
-          cases hl : load fs st rn c with
-          | error e => simp [hl] at h
-          | ok pr =>
-              obtain ⟨s1, t1⟩ := pr
-              simp only [hl] at h
-              cases h
-              obtain ⟨h1, h2, h3, _, _⟩ := load_clean fs st st' rn c false t hc hl
-              exact ⟨h1, h2, h3⟩
-  | pluginString p =>
-      simp only [mkRoot] at h
-      rw [hc.1] at h
-      cases hpc : pluginCls p with
-      | none => simp [hpc] at h
-      | some c =>
-          cases hr : pluginByFlag p false with
-          | none => simp [hpc, hr] at h
-          | some row =>
-              cases hf : fs.lookup rn with
-              | none => simp [hpc, hr, hf] at h
-              | some f =>
-                  have hs := pluginByFlag_false_safe p row hr
-                  simp only [hpc, hr, hf, hs.2.2.2, hs.2.1.2] at h
-                  cases hp : parseFile c false rn f with
-                  | error e => simp [hp] at h
-                  | ok t1 =>
-                      simp only [hp] at h
-                      cases h
-                      refine ⟨⟨rfl, ?_⟩, ?_, rfl⟩
-                      · intro k t2 hk; simp [st0] at hk
-                      · exact parse_off_clean c rn f t1 hp
-
 /-- **Disabling code execution disables it on every path — over arbitrary include graphs**:
     for every file system of templates (any include graph, cycles and diamonds included), every
     history of earlier loads through the same loader, every fuel and both include modes, a root
@@ -466,139 +181,6 @@ theorem parse_ignores_flag_without_code (c : Cls) (name : Nat) (f : File) (h : n
     (b b' : Bool) : parseFile c b name f = parseFile c b' name f :=
   parse_noCode_flag c name f h b b'
 
-/-- which (class, source kind) pairs exist: a parsed stream is a markup-only source -/
-def srcOk (c : Cls) (s : Src) : Bool :=
-  match c, s with
-  | .newtext, .stream => false
-  | .oldtext, .stream => false
-  | _, _ => true
-
-theorem directFlag_isSome (c : Cls) (s : Src) (q : Req) (ld : Option Req) :
-    (directFlag c s q ld).isSome = srcOk c s ∧ (directLoaderFlag c s q ld).isSome = srcOk c s := by
-  rcases ld with _ | l
-  · cases c <;> cases s <;> cases q <;> exact ⟨rfl, rfl⟩
-  · cases c <;> cases s <;> cases q <;> cases l <;> exact ⟨rfl, rfl⟩
-
-theorem loaderFlag_isSome (c : Cls) (d : Bool) (q : Req) : (loaderFlag c d q).isSome = true := by
-  cases c <;> cases d <;> cases q <;> rfl
-
-theorem pluginRow_total_check (p : Plugin) (b : Bool) :
-    (pluginByFlag p b).any (fun row => row.strF.isSome && row.strLF.isSome) = true := by
-  cases p <;> cases b <;> decide +kernel
-
-theorem pluginRow_total (p : Plugin) (b : Bool) :
-    ∃ row tf lf, pluginByFlag p b = some row ∧ row.strF = some tf ∧ row.strLF = some lf := by
-  have h := pluginRow_total_check p b
-  cases hr : pluginByFlag p b with
-  | none => rw [hr] at h; cases h
-  | some row =>
-      rw [hr] at h
-      simp only [Option.any_some, Bool.and_eq_true] at h
-      obtain ⟨h1, h2⟩ := h
-      cases hf : row.strF with
-      | none => rw [hf] at h1; cases h1
-      | some tf =>
-          cases hl : row.strLF with
-          | none => rw [hl] at h2; cases h2
-          | some lf => exact ⟨row, tf, lf, rfl, hf, hl⟩
-
-/-- reload mode of the loader a root works with -/
-def rootAR (root : Root) (ar : Bool) : Bool :=
-  match root with
-  | .direct _ _ true => false
-  | _ => ar
-
-theorem mkLoader_shape (cfg : Config) (root : Root) (st : St) (h : mkLoader cfg root = .ok st) :
-    st = st0 st.flag (rootAR root cfg.autoReload) := by
-  cases root with
-  | direct c s own =>
-      simp only [mkLoader] at h
-      cases hd : directLoaderFlag c s cfg.tmpl (if own = true then none else some cfg.loader) with
-      | none => simp [hd] at h
-      | some lf => simp only [hd] at h; cases h; cases own <;> rfl
-  | load c d =>
-      simp only [mkLoader] at h
-      cases hd : loaderFlag c d cfg.loader with
-      | none => simp [hd] at h
-      | some lf => simp only [hd] at h; cases h; rfl
-  | pluginFile p =>
-      simp only [mkLoader] at h
-      cases hp : parseOpt cfg.opt <;> simp only [hp] at h <;> first | (cases h; rfl) | cases h
-  | pluginString p =>
-      simp only [mkLoader] at h
-      cases hp : parseOpt cfg.opt <;> simp only [hp] at h <;> first | (cases h; rfl) | cases h
-
-/-- bringing the root into existence under another configuration, from a loader state that
-    differs in the flag only, over code-free files: same error, or the same template object and
-    a state that again differs in the flag only -/
-theorem mkRoot_flag (cfg cfg' : Config) (fs : FS) (hfs : FsNoCode fs) (rn : Nat) (st : St) (b : Bool)
-    (root : Root) :
-    ∃ b', mkRoot cfg' fs rn (st.setFlag b) root =
-      match mkRoot cfg fs rn st root with
-      | .error e => .error e
-      | .ok (s, t, k) => .ok (s.setFlag b', t, k) := by
-  cases root with
-  | direct c s own =>
-      refine ⟨b, ?_⟩
-      simp only [mkRoot]
-      have h1 := (directFlag_isSome c s cfg.tmpl (if own = true then none else some cfg.loader)).1
-      have h2 := (directFlag_isSome c s cfg'.tmpl (if own = true then none else some cfg'.loader)).1
-      cases hd : directFlag c s cfg.tmpl (if own = true then none else some cfg.loader) with
-      | none =>
-          rw [hd] at h1
-          cases hd' : directFlag c s cfg'.tmpl (if own = true then none else some cfg'.loader) with
-          | none => rfl
-          | some tf' => rw [hd', ← h1] at h2; cases h2
-      | some tf =>
-          rw [hd] at h1
-          cases hd' : directFlag c s cfg'.tmpl (if own = true then none else some cfg'.loader) with
-          | none => rw [hd', ← h1] at h2; cases h2
-          | some tf' =>
-              cases hf : fs.lookup rn with
-              | none => rfl
-              | some f =>
-                  simp only
-                  rw [parse_noCode_flag c rn f (hfs rn f hf) tf' tf]
-                  cases parseFile c tf rn f with
-                  | error e => rfl
-                  | ok t => rfl
-  | load c d =>
-      refine ⟨b, ?_⟩
-      simp only [mkRoot]
-      rw [load_flag fs hfs st rn c false b]
-      cases load fs st rn c with
-      | error e => rfl
-      | ok pr => obtain ⟨s1, t1⟩ := pr; rfl
-  | pluginFile p =>
-      refine ⟨b, ?_⟩
-      simp only [mkRoot]
-      cases pluginCls p with
-      | none => rfl
-      | some c =>
-          simp only
-          rw [load_flag fs hfs st rn c false b]
-          cases load fs st rn c with
-          | error e => rfl
-          | ok pr => obtain ⟨s1, t1⟩ := pr; rfl
-  | pluginString p =>
-      obtain ⟨row, tf, lf, hr, htf, hlf⟩ := pluginRow_total p st.flag
-      obtain ⟨row', tf', lf', hr', htf', hlf'⟩ := pluginRow_total p b
-      refine ⟨lf', ?_⟩
-      simp only [mkRoot]
-      have hb : (st.setFlag b).flag = b := rfl
-      rw [hb, hr, hr']
-      cases pluginCls p with
-      | none => rfl
-      | some c =>
-          cases hf : fs.lookup rn with
-          | none => rfl
-          | some f =>
-              simp only [htf, hlf, htf', hlf']
-              rw [parse_noCode_flag c rn f (hfs rn f hf) tf' tf]
-              cases parseFile c tf rn f with
-              | error e => rfl
-              | ok t => rfl
-
 /-- **Templates without code blocks render identically whether execution is allowed or not**:
     over a file system without code blocks, two configurations that differ in the flags only
     (constructor flag, loader flag, plugin option — neither being a configuration error) give
@@ -635,88 +217,6 @@ theorem flag_only_affects_code_blocks (fuel pf : Nat) (cfg cfg' : Config) (root 
       simp only
       rw [gen_flag fuel pf fs hfs b' true t.cls k t s]
       rfl
-
-theorem st0_faithful (fs : FS) (b ar : Bool) : Faithful fs (st0 b ar) := by
-  intro k t h; simp [st0] at h
-
-theorem mkLoader_faithful (cfg : Config) (fs : FS) (root : Root) (st : St) (h : mkLoader cfg root = .ok st) :
-    Faithful fs st := by
-  rw [mkLoader_shape cfg root st h]; exact st0_faithful fs _ _
-
-theorem mkRoot_faithful (cfg : Config) (fs : FS) (rn : Nat) (st st' : St) (root : Root) (t : Tmpl)
-    (stack : List Nat) (hf : Faithful fs st) (h : mkRoot cfg fs rn st root = .ok (st', t, stack)) :
-    Faithful fs st' ∧ t.name = rn ∧ TF fs t := by
-  have parsed : ∀ c tf f (t : Tmpl), fs.lookup rn = some f → parseFile c tf rn f = .ok t → t.name = rn ∧ TF fs t := by
-    intro c tf f t hfl hp
-    obtain ⟨hi, hn⟩ := parse_items c tf rn f t hp
-    exact ⟨hn, ⟨f, by rw [hn]; exact hfl, hi⟩⟩
-  cases root with
-  | direct c s own =>
-      simp only [mkRoot] at h
-      cases hfl : fs.lookup rn with
-      | none => simp [hfl] at h
-      | some f =>
-          cases hdf : directFlag c s cfg.tmpl (if own = true then none else some cfg.loader) with
-          | none => simp [hdf] at h
-          | some tf =>
-              simp only [hdf, hfl] at h
-              cases hp : parseFile c tf rn f with
-              | error e => simp [hp] at h
-              | ok t1 =>
-                  simp only [hp] at h
-                  cases h
-                  exact ⟨hf, parsed c tf f _ hfl hp⟩
-  | load c d =>
-      simp only [mkRoot] at h
-      cases hl : load fs st rn c with
-      | error e => simp [hl] at h
-      | ok pr =>
-          obtain ⟨s1, t1⟩ := pr
-          simp only [hl] at h
-          cases h
-          obtain ⟨h1, _, h3, h4, _⟩ := load_faithful fs st st' rn c false t hf hl
-          exact ⟨h1, h3, h4⟩
-  | pluginFile p =>
-      simp only [mkRoot] at h
-      cases hpc : pluginCls p with
-      | none => simp [hpc] at h
-      | some c =>
-          simp only [hpc] at h
-          cases hl : load fs st rn c with
-          | error e => simp [hl] at h
-          | ok pr =>
-              obtain ⟨s1, t1⟩ := pr
-              simp only [hl] at h
-              cases h
-              obtain ⟨h1, _, h3, h4, _⟩ := load_faithful fs st st' rn c false t hf hl
-              exact ⟨h1, h3, h4⟩
-  | pluginString p =>
-      simp only [mkRoot] at h
-      cases hpc : pluginCls p with
-      | none => simp [hpc] at h
-      | some c =>
-          cases hr : pluginByFlag p st.flag with
-          | none => simp [hpc, hr] at h
-          | some row =>
-              cases hfl : fs.lookup rn with
-              | none => simp [hpc, hr, hfl] at h
-              | some f =>
-                  simp only [hpc, hr, hfl] at h
-                  cases h1 : row.strF with
-                  | none => simp [h1] at h
-                  | some tf =>
-                      cases h2 : row.strLF with
-                      | none => simp [h1, h2] at h
-                      | some lf =>
-                          simp only [h1, h2] at h
-                          cases hp : parseFile c tf rn f with
-                          | error e => simp [hp] at h
-                          | ok t1 =>
-                              simp only [hp] at h
-                              obtain ⟨hi, hn⟩ := parse_items c tf rn f t1 hp
-                              cases h
-                              refine ⟨?_, hn, ⟨f, by show fs.lookup t1.name = some f; rw [hn]; exact hfl, hi⟩⟩
-                              intro k t2 hk; simp [st0] at hk
 
 /-- **with execution disabled, a run completes only over a code-free tree**: if the experiment
     ends without error then every template reachable from the root through includes (any depth,
@@ -898,3 +398,4 @@ example : FsNoCode [(0, ⟨.markup, [.text 1, .incl 1 .text false]⟩), (1, ⟨.
       simp [e0, e1] at h
 
 end Genshi.Props.C14
+
